@@ -181,6 +181,6 @@ STRATEGIES = {'specs': _specs, 'wholecol': _specs_wc}
 def parts(tier, seed):
     q = tier == 'quick'
     return [
-        ('hyp', 'specs', 96 if q else 4000, 6),
+        ('hyp', 'specs', 192 if q else 4000, 6),
         ('hyp', 'wholecol', 4 if q else 160, 1),
     ]
